@@ -24,6 +24,9 @@ Generated/TypeNames.lean (property C09): see type_names.py — the name tables o
 lean/SaModel/Props/C09Gen.lean.
 Generated/Constants*.lean (C05, C08, C09, C14, C15, C16, C20): see constants.py — named constants, defaults, unit factors, guards and
 literal texts the model mirrors.  Obligations: lean/SaModel/Props/ConstGen*.lean.
+Generated/ArithSites.lean (C16): see arith_sites.py — every operator, cast, index, unwrap / expect, panicking std method and
+panicking macro of the non-test sources, each classified in translator/arith_sites.json (`model:` / `range:` / `test-only` /
+`OPEN`); an unclassified or vanished site is refused.  Obligation: lean/SaModel/Props/C16Gen.lean (`gen_arith_sites`).
 What each parser recognises and refuses: notes/translator.md.
 """
 import os
@@ -37,6 +40,7 @@ import coerce_arms  # noqa: E402
 import type_names  # noqa: E402
 import adapter_bodies  # noqa: E402
 import constants  # noqa: E402
+import arith_sites  # noqa: E402  Generated/ArithSites.lean (C16): the inventory of unwind / overflow sites vs translator/arith_sites.json
 
 ROOT = os.path.dirname(os.path.dirname(os.path.abspath(__file__)))
 
@@ -303,7 +307,7 @@ GENERATORS = [
     ("AdapterBodies", ["C19"], adapter_bodies.render),
     ("CoerceArms", ["C07"], coerce_arms.render),
     ("TypeNames", ["C09"], type_names.render),
-] + constants.GENERATORS
+] + constants.GENERATORS + arith_sites.GENERATORS
 
 
 def main(argv):
